@@ -33,6 +33,7 @@ done
 git -C /repo checkout -- .
 # replay files written by the runs on the seeded tree are not findings about /repo
 git -C /verif clean -fdq replay
+git -C /verif checkout -- replay evidence 2>/dev/null   # evidence of a seeded tree is not evidence about /repo
 python3 - "$out" "$ran" "$results" <<'PY'
 import json,sys
 out,ran,results=sys.argv[1:4]
